@@ -198,6 +198,15 @@ class LibsModel:
                 return AV(ty='generator', elem=AV(ty='tuple', elts=[el, later(el)]), deps=d, maybe_empty=True,
                           combos_of=(qual.split('.')[-1], args[0]))
             return AV(ty='generator', elem=AV(ty='tuple', elem=el), deps=d, maybe_empty=True)
+        if qual == 'itertools.count':
+            return AV(ty='count', start=args[0] if args else const(0), deps=d)
+        if qual == 'itertools.starmap' and len(args) == 2:
+            item = self.iter_item(interp, st, args[1], node, None)
+            if item is not None and item.elts is not None:
+                el = interp.call_value(args[0], list(item.elts), {}, frame, st, node)
+            else:
+                el = AV(deps=d)
+            return AV(ty='generator', elem=el, deps=d, maybe_empty=True)
         if qual == 'itertools.compress':
             el = self.iter_item(interp, st, args[0], None, None)
             return AV(ty='generator', elem=el, deps=d)
